@@ -12,7 +12,9 @@ DRIVER_MODULE = "Driver.Treap"
 PROPS = "RlibModel.Props.C16"
 PROFILES = ["release"]
 SHRINK_SEP = ";"
-RULE = ("cases are histories `C16 <item> <stream> ; op ; op …` on a vector of live treaps. `ctl` (priorities written by the case into the "
+RULE = ("cases are histories `C16 <item> <stream> ; op ; op …` on a vector of live treaps (operation language and items as C03, incl. the "
+        "round-3 operations move/take/dup/collect2 that re-use returned items, the item `key` with the trait's default update/push, priority "
+        "policies with the ends of the priority type and the exhaustive scope over {0,1,MAX-1,MAX}). `ctl` (priorities written by the case into the "
         "public field): exhaustive priority assignments (ties included) for <=4 (<=5 thorough) nodes x split points x items x build orders "
         "+ random histories (small, and grown to 20-250 nodes), half of them with pairwise distinct priorities; after EVERY operation the "
         "heap order of every edge of every live treap is read through the public fields (explicit stack); at the end the shape of every "
